@@ -317,13 +317,16 @@ func (circFamily) Exec(c *hc.Case) {
 	}
 	tags := map[string]bool{}
 	bounds := []int{}
+	clocks := []time.Time{}
 	for _, o := range ops {
+		clocks = append(clocks, h.Now())
 		out, _ := h.do(o)
 		c.Outs = append(c.Outs, out)
 		bounds = append(bounds, len(h.ev))
 	}
 	h.finish()
-	circMonitors(c, h, ops, bounds, tags)
+	circMonitors(c, h, ops, bounds, clocks, tags)
+	asIfAbsent(c, &p, ops, tags)
 	for t := range tags {
 		c.Tags = append(c.Tags, t)
 	}
@@ -333,3 +336,81 @@ func (circFamily) Exec(c *hc.Case) {
 func (circFamily) Emit(w io.Writer, f *hc.File) { emitCirc(w, f, "") }
 
 var _ = fmt.Sprint
+
+// asIfAbsent is the monitor of C10's last clause: "later calls behave as if the
+// panicking call had not happened".  For the first call whose run function
+// panicked it re-executes the history without that call and compares everything
+// observed after the panic.
+func asIfAbsent(c *hc.Case, p *circParams, ops []circOp, tags map[string]bool) {
+	if p.Mode != "normal" {
+		return
+	}
+	pid, endIdx := -1, -1
+	for i, o := range ops {
+		if o.K == "endrun" && o.Res == "panic" {
+			// only a well-formed end: the call must have begun earlier and not ended yet
+			// only a call whose Begin and panicking EndRun are separated by clock ticks alone: any other
+			// event in between may legitimately have been influenced by the call being in flight
+			begun := false
+			for j := i - 1; j >= 0; j-- {
+				if ops[j].K == "begin" && ops[j].ID == o.ID {
+					begun = true
+					break
+				}
+				if ops[j].K != "tick" {
+					break
+				}
+			}
+			if begun {
+				pid, endIdx = o.ID, i
+				break
+			}
+		}
+	}
+	if pid < 0 {
+		return
+	}
+	run := func(skip bool) ([]string, bool, bool) {
+		q := *p
+		h := newCircRun(&q)
+		var outs []string
+		invoked, probe := false, false
+		for i, o := range ops {
+			if skip && (o.K == "begin" || o.K == "endrun" || o.K == "endfb" || o.K == "cancel") && o.ID == pid {
+				continue
+			}
+			wasOpen := h.c.IsOpen()
+			n0 := len(h.ev)
+			out, _ := h.do(o)
+			if !skip && o.K == "begin" && o.ID == pid {
+				for _, e := range h.ev[n0:] {
+					if e.Kind == "invoked" {
+						invoked = true
+						probe = wasOpen
+					}
+				}
+			}
+			if i > endIdx {
+				outs = append(outs, out)
+			}
+		}
+		h.finish()
+		return outs, invoked, probe
+	}
+	with, invoked, probe := run(false)
+	if !invoked {
+		return // the panicking EndRun was a no-op (call was rejected or passed through)
+	}
+	without, _, _ := run(true)
+	tags["c10:as_if_absent_checked"] = true
+	for i := range with {
+		if i >= len(without) || with[i] != without[i] {
+			if probe {
+				tags["known:D11"] = true
+			}
+			c.Viol = append(c.Viol, hc.Violation{Clause: "C10: later calls behave as if the panicking call had not happened",
+				Detail: fmt.Sprintf("call %d panicked (half-open probe: %v); %d events later the history differs from the one without it: %s vs %s", pid, probe, i+1, with[i], without[i]), AtOp: endIdx + 1 + i})
+			return
+		}
+	}
+}
